@@ -10,6 +10,7 @@ import (
 )
 
 type Obligation struct {
+	Groups   map[string][][]Term
 	Name     string // <func>#<kind>:<label>
 	Func     string
 	Kind     string
@@ -35,8 +36,15 @@ func (ex *Exec) oblige(st *State, kind, label string, props []string, goal Term,
 			Result: &SolveResult{Status: "unsat", Backend: "constant-folding"}})
 		return
 	}
+	// goal literally among the assumptions of this path (typically a loop invariant or precondition
+	// conjunct that is needed again): discharged by lookup
+	if ex.assumedLiterally(st, goal) {
+		ex.obls = append(ex.obls, &Obligation{Name: funcKey(ex.fn) + "#" + kind + ":" + label, Func: funcKey(ex.fn), Kind: kind, Label: label, Props: props, Goal: goal, Decls: ex.D, Where: ex.curPos, Src: src,
+			Result: &SolveResult{Status: "unsat", Backend: "assumption-lookup"}})
+		return
+	}
 	ex.obls = append(ex.obls, &Obligation{Name: funcKey(ex.fn) + "#" + kind + ":" + label, Func: funcKey(ex.fn), Kind: kind, Label: label, Props: props,
-		PC: append([]Term(nil), st.PC...), Goal: goal, Decls: ex.D, Where: ex.curPos, Src: src, Trace: append([]string(nil), st.Trace...)})
+		PC: append([]Term(nil), st.PC...), Goal: goal, Decls: ex.D, Where: ex.curPos, Src: src, Trace: append([]string(nil), st.Trace...), Groups: ex.groups})
 }
 
 // canary: an "assert false" that must NOT be provable (vacuity guard, DESIGN.md 3.7).
@@ -52,7 +60,7 @@ func (ex *Exec) canary(st *State, label string) {
 	}
 	ex.canaryN[label]++
 	ex.obls = append(ex.obls, &Obligation{Name: funcKey(ex.fn) + "#canary:" + label, Func: funcKey(ex.fn), Kind: "canary", Label: label,
-		PC: append([]Term(nil), st.PC...), Goal: False, Decls: ex.D, Where: ex.curPos, Src: "assert false must fail"})
+		PC: append([]Term(nil), st.PC...), Goal: False, Decls: ex.D, Where: ex.curPos, Src: "assert false must fail", Groups: ex.groups})
 }
 
 func (ex *Exec) clauseProps(c *Clause) []string {
@@ -811,4 +819,52 @@ func (ex *Exec) allocateFor(st *State, res Val, t types.Type) {
 func isRepoType(t types.Type) bool {
 	n := namedOf(t)
 	return n != nil && n.Obj().Pkg() != nil && strings.HasPrefix(n.Obj().Pkg().Path(), repoModule)
+}
+
+// assumedLiterally: the goal is syntactically one of the conjuncts assumed on this path (groups
+// are not searched: a conjunct must hold on every alternative, which the solver decides).
+func (ex *Exec) assumedLiterally(st *State, goal Term) bool {
+	for i := len(st.PC) - 1; i >= 0; i-- {
+		a := st.PC[i].S
+		if a == goal.S {
+			return true
+		}
+		if strings.HasPrefix(a, "(and ") && strings.Contains(a, goal.S) {
+			for _, c := range topConjuncts(a) {
+				if c == goal.S {
+					return true
+				}
+			}
+		}
+	}
+	return false
+}
+
+func topConjuncts(s string) []string {
+	var out []string
+	var walk func(t string)
+	walk = func(t string) {
+		if !strings.HasPrefix(t, "(and ") {
+			out = append(out, t)
+			return
+		}
+		body := t[5 : len(t)-1]
+		depth, start := 0, 0
+		for i := 0; i <= len(body); i++ {
+			if i == len(body) || (body[i] == ' ' && depth == 0) {
+				if i > start {
+					walk(body[start:i])
+				}
+				start = i + 1
+				continue
+			}
+			if body[i] == '(' {
+				depth++
+			} else if body[i] == ')' {
+				depth--
+			}
+		}
+	}
+	walk(s)
+	return out
 }
